@@ -116,6 +116,7 @@ class Contract:
         self.pure = pure
         self.self_type = self_type
         self.note = note
+        self.namespace = None
 
 
 class SpecFn:
@@ -168,6 +169,9 @@ class Registry:
             return TNone()
         if ts == "any":
             return TOpaque("any")
+        if ts == "dict":
+            from .dicts import TDict
+            return TDict()
         if ts.startswith("list[") and ts.endswith("]"):
             return TList(self.type(ts[5:-1]))
         opt = ts.endswith("?")
@@ -218,7 +222,9 @@ class Registry:
         return cm
 
     def contract(self, qualname, **kw):
+        import sys
         c = Contract(qualname, **kw)
+        c.namespace = sys._getframe(1).f_globals      # names in its clauses resolve in the declaring module
         self.contracts[qualname] = c
         return c
 
